@@ -3,6 +3,7 @@ CONSTANTS
   Events <- MCEvents
   RegEvents <- MCReg
   Prios <- MCPrios
+  Spawns <- NoSpawns
   MaxListeners = 4
   Depth = 4
 INVARIANT DispatchCorrect
